@@ -135,6 +135,14 @@ theorem C08_read_wf (t : Ast) (q : Query) (h : readFragment t = .ok q) : q.wf = 
   | error e => simp [hf] at h
   | ok f => simp only [hf] at h; exact Read.frag_wf f q h
 
+/-- **T1 from the parse tree on**: for every parse tree the reader accepts, every well-formed
+molecule graph and every assignment, the matches of the query read from the tree are exactly the
+embeddings of that query (guard: no `*` suffix). -/
+theorem C08_fragment_matches_iff_partial (t : Ast) (q : Query) (m : Mol) (f : List Nat)
+    (hread : readFragment t = .ok q) (hm : m.wf = true) (hstar : NoStar q = true) :
+    f ∈ queryMatches q m ↔ Embeds q m f :=
+  C08_matches_iff_partial q m f (C08_read_wf t q hread) hm hstar
+
 /-- **T3, reading, full statement**: renaming the labels by any injective renaming changes nothing
 but the label names in what the reader returns.  False of the code as it is (finding FM2): an atom
 *called* `AtomLabel` makes the reader fail with `TypeError` at the next bonded atom, so renaming a
@@ -209,6 +217,13 @@ example (m : Mol) : (Read.frag (exFrag.rename swapAB)).map (queryMatches · m) =
   C08_alpha_matches_partial swapAB swapAB_injective swapAB_fixes exFrag m
 
 /-! ## The cap of 10 000 candidates (F30) -/
+
+/-- **T1 with the cap, full statement**: the capped matcher returns exactly the embeddings.  False of
+the code as it is (F30): beyond 10 000 candidates embeddings are omitted; the failing input on the
+real code is `corpus/C08/F30.json` (10 728 embeddings, 10 000 returned). -/
+def C08_capped_iff_full : Prop :=
+  ∀ (q : Query) (m : Mol) (f : List Nat), q.wf = true → m.wf = true → NoStar q = true →
+    (f ∈ queryMatchesCapped q m ↔ Embeds q m f)
 
 /-- **Cap, completeness under the guard**: when the candidate enumeration stays below RDKit's
 `maxMatches` the capped matcher is the uncapped one. -/
